@@ -50,6 +50,7 @@ struct Hist {
     void teardown();
     void connect(int c, int server, const Op &op);
     void edit(int c, const Op &op);
+    void graft(int dst, int src, const Op &op);
     void run();
 };
 
@@ -81,7 +82,9 @@ static Plan c14_gen(uint64_t seed, int tier, uint64_t index) {
         case 10: p.ops.push_back(Op("addkey", (int64_t) (2 + r.below(3)))); break;
         case 11: p.ops.push_back(Op("rmkey", (int64_t) (1 + r.below(4)))); break;
         case 12: if (r.chance(1, 2)) { p.ops.push_back(Op("foreign", c)); } else { p.ops.push_back(Op("halfopen", c, (int64_t) r.below(2), (int64_t) r.next() % 100000, (int64_t) r.below(8))); p.ops.push_back(Op("resume", c, 0)); } break;                                                                                          // full handshake with the foreign server: the sid now holds its ticket/psk
-        case 13: case 14: p.ops.push_back(Op("edit", c, (int64_t) r.below(9), (int64_t) r.below(4096), (int64_t) r.below(256))); break;
+        case 13: if (r.chance(1, 2)) { p.ops.push_back(Op("graft", c, (int64_t) r.below(NCLIENTS), (int64_t) r.below(2))); p.ops.push_back(Op("resume", c, 0)); break; }
+        /* fall through */
+        case 14: p.ops.push_back(Op("edit", c, (int64_t) r.below(9), (int64_t) r.below(4096), (int64_t) r.below(256))); break;
         case 15: if (r.chance(1, 2)) { p.ops.push_back(Op("dirty", c)); } else if (r.chance(2, 3)) { p.ops.push_back(Op("hold", c, 0)); } else { p.ops.push_back(Op("release", (int64_t) r.below(4))); } break;                                                                                            // resume and delete both sessions without closure
         }
     }
@@ -137,6 +140,19 @@ static std::vector<Plan> c14_fixed(int tier) {
                         p.ops.push_back(Op("advance", AB[k][1])); p.ops.push_back(Op("resume", 0, 0));
                         if (k == 4) { p.ops.push_back(Op("advance", AB[k][1])); p.ops.push_back(Op("resume", 0, 0)); }
                         v.push_back(p);
+                    }
+                }
+                if (ver < 2) {   // table-slot poisoning: B files a session of its own (ticket-resumed, or TLS 1.3 with a chosen legacy id) under A's table index, then presents A's id with B's secret
+                    for (int how = 0; how < 3; how++) {
+                        Plan p; p.seed = 153000 + (uint64_t) ((((kind * 3 + ver) * 2 + tk) * 4) + how);
+                        p.cfg["kind"] = kind ? KK_EC256 : KK_RSA2048;
+                        p.ops.push_back(Op("full", 0, ver, 7, 0));                        // A: session id in the cache
+                        p.ops.push_back(Op("full", 1, how == 1 ? 2 : ver, 7, how == 1 ? 0 : 1));   // B: own session (ticket / TLS 1.3)
+                        p.ops.push_back(Op("graft", 1, 0, 0)); p.ops.push_back(Op(how == 2 ? "hold" : "resume", 1, 0));
+                        if (how == 2) { p.ops.push_back(Op("release", 0)); }
+                        p.ops.push_back(Op("graft", 1, 0, 1)); p.ops.push_back(Op("resume", 1, 0));
+                        p.ops.push_back(Op("resume", 0, 0));                             // and A itself afterwards
+                        if (tk == 0) { v.push_back(p); }
                     }
                 }
                 {   // fatal alert on the session, then resume
@@ -416,10 +432,35 @@ void Hist::edit(int c, const Op &op) {
     if (what == "none") { counters["fault_not_fired"]++; } else { counters["fault.edit_" + what]++; last_edit = what; C.dirty = true; }
 }
 
+// an attacking client builds its stored state from what it saw on the wire of ANOTHER client's session (session ids are sent in the clear):
+// mode 0: its own id becomes <first four bytes of the other id (the server's table index)> + other bytes, everything else (its own ticket,
+//         master secret) kept - a session of its own that the server may file under the other client's table slot;
+// mode 1: the other client's whole id, with the attacker's OWN master secret and suite and no ticket - a resumption attempt under the other id
+void Hist::graft(int dst, int src, const Op &op) {
+    if (dst == src) { counters["fault_not_fired"]++; return; }
+    struct sslSessionId *d = (struct sslSessionId *) cl[dst].sid, *sr = (struct sslSessionId *) cl[src].sid;
+    int sl = 0, dl = 0, t = 0, h = 0; unsigned int cid = 0, scid = 0;
+    vsim_sid_info(sr, &sl, &t, &h, &scid); vsim_sid_info(d, &dl, &t, &h, &cid);
+    if (sl < 8) { counters["fault_not_fired"]++; return; }
+    unsigned char *db = vsim_sid_id_bytes(d), *sb = vsim_sid_id_bytes(sr);
+    if ((op.c & 1) == 0) {
+        for (int i = 0; i < 32; i++) { db[i] = i < 4 ? sb[i] : (unsigned char) (sb[i] ^ (0x5a + i)); }
+        vsim_sid_set_idlen(d, 32);
+        counters["fault.graft_table_index"]++; last_edit = "graft_index";
+    } else {
+        memcpy(db, sb, (size_t) sl); vsim_sid_set_idlen(d, sl);
+        vsim_sid_set_ticket_len(d, 0);
+        if (scid) { vsim_sid_set_cipher(d, scid); }
+        counters["fault.graft_whole_id"]++; last_edit = "graft_id";
+    }
+    cl[dst].dirty = true;
+}
+
 void Hist::run() {
     for (auto &op : plan.ops) {
         if (!viol_cls.empty()) { break; }
-        if (op.k == "halfopen") { forge_halfopen((int) ((uint64_t) op.a % NCLIENTS), op); }
+        if (op.k == "graft") { graft((int) ((uint64_t) op.a % NCLIENTS), (int) ((uint64_t) op.b % NCLIENTS), op); }
+        else if (op.k == "halfopen") { forge_halfopen((int) ((uint64_t) op.a % NCLIENTS), op); }
         else if (op.k == "release") { if (!held.empty()) { release((size_t) ((uint64_t) op.a % held.size())); } }
         else if (op.k == "full" || op.k == "resume" || op.k == "fatal" || op.k == "dirty" || op.k == "hold") { connect((int) ((uint64_t) op.a % NCLIENTS), 0, op); }
         else if (op.k == "foreign") { connect((int) ((uint64_t) op.a % NCLIENTS), 1, op); }
